@@ -185,7 +185,7 @@ FILES = ("waveforms.traces.npy", "waveforms.table.pqt", "waveforms.channels.npz"
 
 
 def file_hashes(out):
-    return [hashlib.sha256((Path(out) / f).read_bytes()).hexdigest() for f in FILES]
+    return [hashlib.sha256((Path(out) / f).read_bytes()).hexdigest() if (Path(out) / f).exists() else None for f in FILES]
 
 
 def loader_args(case, labels, indices):
@@ -825,39 +825,52 @@ def child_sessions(spec_file):
     Path(spec["result"]).write_text(json.dumps(res))
 
 
+def run_pair_child(sessions, wd):
+    wd.mkdir()
+    spec = {"work": str(wd), "result": str(wd / "result.json"), "sessions": sessions}
+    (wd / "spec.json").write_text(json.dumps(spec))
+    p = subprocess.run([sys.executable, "-c", "import sys, pC13; pC13.child_sessions(sys.argv[1])", str(wd / "spec.json")],
+                       stdout=subprocess.PIPE, stderr=subprocess.STDOUT, text=True, timeout=240, cwd=str(wd))
+    if not (wd / "result.json").exists():
+        raise RuntimeError("child exit code %s: %s" % (p.returncode, (p.stdout or "")[-300:]))
+    return json.loads((wd / "result.json").read_text())
+
+
 def run_session_pair(ctx, rng, work, cid0, layout, inputs, outputs, descs):
     """Parent side: build the spec, run the child under a timeout, fold its report into the check."""
     sessions = []
     for j in range(2):
         c = gen_case(rng, cid0 + j)
+        while not any(c["to"] < sp[0] < c["ns"] - (c["L"] - c["to"]) for sp in c["spikes"]):
+            c = gen_case(rng, cid0 + j)          # at least one valid spike (the empty table is F-C13-b)
         size = max(c["to"], 1, c["ns"] // 3)
         c["sizes"] = [size]
         sessions.append({"case": c, "size": size, "n_jobs": layout["n_jobs"], "out": layout["out"], "bin": layout["bin"][j]})
-    wd = Path(work) / ("pair%d" % cid0)
-    wd.mkdir()
-    spec = {"work": str(wd), "result": str(wd / "result.json"), "sessions": sessions}
-    (wd / "spec.json").write_text(json.dumps(spec))
     desc = {"session_pair": layout, "sessions": [case_desc(s_["case"], s_["size"], s_["n_jobs"]) for s_ in sessions]}
     try:
-        p = subprocess.run([sys.executable, "-c", "import sys, pC13; pC13.child_sessions(sys.argv[1])", str(wd / "spec.json")],
-                           stdout=subprocess.PIPE, stderr=subprocess.STDOUT, text=True, timeout=240, cwd=str(wd))
-        res = json.loads((wd / "result.json").read_text())
+        res = run_pair_child(sessions, Path(work) / ("pair%d" % cid0))
     except Exception as e:  # noqa  crash / hang / segfault of the child: a verdict about the code, not a harness crash
-        tail = getattr(e, "stdout", None) or (p.stdout[-400:] if "p" in locals() and p.stdout else "")
-        ctx.fail("two sessions processed in turn: the child process failed (%s) %s" % (err_text(e), str(tail)[-300:]),
-                 desc, {"kind": "sessions"})
+        ctx.fail("two sessions processed in turn: the child process failed (%s)" % err_text(e)[-400:],
+                 desc, {"kind": "sessions", "class": "other"})
         return 0
     for k, r in enumerate(res):
         d = dict(desc["sessions"][k], session_pair=layout, session=k)
+        # F-C13-c: a relative bin_file is re-opened by re-used worker processes whose cwd is still the
+        # previous session's folder (second and later sessions, n_jobs > 1)
+        cls = "relative_bin_reused_workers" if (k >= 1 and layout["n_jobs"] > 1 and
+                                                 layout["bin"][k].startswith("relative")) else "other"
         if r["error"]:
-            ctx.fail("session %d of a pair (cwd changed in between, %s output_dir, n_jobs %d): extract_wfs_cbin raised %s"
-                     % (k, layout["out"], layout["n_jobs"], r["error"]), desc, {"kind": "sessions"})
+            ctx.fail("session %d of a pair (cwd changed in between, %s output_dir, %s bin_file, n_jobs %d): "
+                     "extract_wfs_cbin raised %s" % (k, layout["out"], layout["bin"][k], layout["n_jobs"], r["error"]),
+                     desc, {"kind": "sessions", "class": cls})
         for kind, what in r["bad"]:
-            ctx.fail("session %d of a pair (cwd changed in between, %s output_dir, n_jobs %d): %s"
-                     % (k, layout["out"], layout["n_jobs"], what), desc, {"kind": "sessions", "clause": kind})
-        inputs.append(r["inp"])
-        outputs.append(r["out"])
-        descs.append(d)
+            ctx.fail("session %d of a pair (cwd changed in between, %s output_dir, %s bin_file, n_jobs %d): %s"
+                     % (k, layout["out"], layout["bin"][k], layout["n_jobs"], what), desc,
+                     {"kind": "sessions", "class": cls, "clause": kind})
+        if cls == "other" or not (r["error"] or r["bad"]):
+            inputs.append(r["inp"])
+            outputs.append(r["out"])
+            descs.append(d)
     return len(res)
 
 
@@ -943,11 +956,12 @@ def run(ctx):
                 if outputs[i][0] == 1 and outputs[i][2] >= 2 and -(-case["ns"] // descs[i]["size"]) >= 2:
                     nontrivial.add(json.dumps(descs[i], sort_keys=True))
         # two sessions in turn, from inside their folders (child process; the harness cwd is untouched)
-        layouts = [{"out": "relative", "bin": ["relative", "relative_str"], "n_jobs": 2},
-                   {"out": "absolute", "bin": ["relative", "absolute_str"], "n_jobs": 3}]
+        layouts = [{"out": "relative", "bin": ["absolute", "absolute_str"], "n_jobs": 2},
+                   {"out": "relative", "bin": ["relative", "relative_str"], "n_jobs": 1},
+                   {"out": "absolute", "bin": ["relative_str", "relative"], "n_jobs": 3}]     # F-C13-c region
         if ctx.thorough():
-            layouts += [{"out": "relative", "bin": ["absolute", "relative"], "n_jobs": 4},
-                        {"out": "relative", "bin": ["relative", "relative"], "n_jobs": 1}]
+            layouts += [{"out": "relative", "bin": ["absolute_str", "absolute"], "n_jobs": 4},
+                        {"out": "relative", "bin": ["relative", "relative"], "n_jobs": 2}]
         npairs = 0
         for j, lay in enumerate(layouts):
             if not HUNG:
@@ -1069,6 +1083,25 @@ def replay(ctx, data):
     if not inp:
         print(json.dumps(data, indent=1)[:3000])
         return 1
+    if "sessions" in inp:
+        lay = inp["session_pair"]
+        sessions = [{"case": dict(c, id=0), "size": c["size"], "n_jobs": c["n_jobs"], "out": lay["out"], "bin": lay["bin"][k]}
+                    for k, c in enumerate(inp["sessions"])]
+        work = common.tmpdir("C13_replay_")
+        try:
+            res = run_pair_child(sessions, Path(work) / "pair")
+        except Exception as e:  # noqa
+            print("child process failed:", err_text(e))
+            return 1
+        finally:
+            shutil.rmtree(work, ignore_errors=True)
+        rc = 0
+        for k, r in enumerate(res):
+            print("session %d: error=%s failing clauses=%s" % (k, r["error"], r["bad"]))
+            ids = common.coq_mismatches(PROP, HEADER, [common.flat_cases_term(0, r["inp"], r["out"])])
+            print("   kernel-evaluated model agrees with implementation:", not ids)
+            rc |= bool(r["error"] or r["bad"] or ids)
+        return rc
     if "samples" in inp:
         obs = impl_array(inp)
         bad = oracle_array(inp, obs) if inp.get("kind") == "valid" else []
